@@ -23,6 +23,7 @@ def handle (line : String) : String :=
     match hexArg f, hexArg d, hexArg h with
     | some f, some d, some h => cmdBread (s == "1") f d h
     | _, _, _ => "bad-op"
+  | "macro" :: toks => BinlogVerif.ConcProto.cmdMacro toks
   | "session" :: toks => BinlogVerif.ConcProto.cmdSession toks
   | "qexplore" :: toks => BinlogVerif.ConcProto.cmdQExplore toks
   | "queue" :: toks => BinlogVerif.ConcProto.cmdQueue toks
